@@ -219,8 +219,12 @@ func (p c05) hostileSession(c *fw.Ctx, uniq *int) []string {
 			"t = t + V", "h = () => V; print(h())", "V = V + 1; print(V)", "V++; print(V)", "--V; print(V)", "print(V++)", "if V == 1 {continue}", "x = V; x = x + 1; print(x, V)", "m[V] = V; print(m)",
 			"a[V] = V * 2; print(a)", "mm = {1: V}; print(mm)", "print(len(a) + V, first(a) * V)", "print(V == 1 && V < 2 || V > 5)", "w = [V]; w[0] = 7; print(w, V)", "print(sprintf(\"%d\", V))",
 			"print(if V > 0 {V} else {-V})", "print(mf.V(V))", "for q = V {print(q)}", "for q = V:3 {print(q)}", "print(a[V], a[-V])", "eval(\"t = t + V\")",
-			"cv = catch(V)", "print(quote(V + 1))", "qv = quote(V)", "cv = [catch(V), catch(V + 1)]"}
-		setup := "cv = 0; qv = 0; a = [10, 20, 30, 40]; m = {\"V\": 5, \"k\": 1, 1: \"one\"}; mf = {\"V\": z => z * 3}; s = \"hello\"; t = 0"
+			"cv = catch(V)", "print(quote(V + 1))", "qv = quote(V)", "cv = [catch(V), catch(V + 1)]",
+			// large containers indexed by the name, and the constructs that disqualify a register placed inside literals
+			"print(bm[V], bm[V + 1], ba[V])", "bm[V] = V; print(bm)", "print(bm[V] == nil, ba[V] + 1)",
+			"print({\"v\": V, \"get\": () => V + 1}.get())", "print([V, () => V * 2][1]())", "print({\"k\": V++, \"j\": V})", "print([(V = V + 1), V])",
+			"print({V: () => V})", "print({\"a\": {\"b\": [x => x + V]}}.a.b[0](1))", "print(if V > 0 {{\"f\": () => V}.f()} else {0})"}
+		setup := "cv = 0; qv = 0; bm = {0: \"a\", 1: \"b\", 2: \"c\", 3: \"d\", 4: \"e\", 5: \"f\", \"s\": 1, 2.5: 2}; ba = [0, 1, 2, 3, 4, 5, 6, 7, 8, 9, 10]; a = [10, 20, 30, 40]; m = {\"V\": 5, \"k\": 1, 1: \"one\"}; mf = {\"V\": z => z * 3}; s = \"hello\"; t = 0"
 		var body []string
 		for k := 0; k < 1+r.IntN(4); k++ {
 			body = append(body, uses[r.IntN(len(uses))])
